@@ -49,7 +49,7 @@ def gen_case(g):
     dvars = []
     for _ in range(nvars):
         idx = rng.randrange(len(names))
-        form = rng.choice(["name", "index", "poly"])
+        form = rng.choice(["name", "index", "poly", "indeterminant", "variable"])
         dvars.append({"form": form, "name": names[idx], "index": idx})
     case = {"fn": fn, "poly": poly, "vars": dvars, "options": rng.choice(SETTINGS)}
     if fn == "rules":
@@ -58,11 +58,19 @@ def gen_case(g):
     return case
 
 
-def designate(numpoly, dvar):
+def designate(numpoly, dvar, poly=None):
+    """The differentiation variable in the requested form (built under the
+    option setting of the case, as a user inside that block would)."""
     if dvar["form"] == "name":
         return dvar["name"]
     if dvar["form"] == "index":
         return dvar["index"]
+    if dvar["form"] == "indeterminant" and poly is not None:
+        return poly.indeterminants[dvar["index"]]
+    if dvar["form"] == "variable":
+        number = M.numsuffix(dvar["name"])
+        if dvar["name"] == f"q{number}" and number < 12:
+            return numpoly.variable(number + 1, asarray=True)[number]
     return numpoly.symbols(dvar["name"])
 
 
@@ -98,7 +106,7 @@ def run_case(case, ctx):
             ctx.count("derivative")
             expected = model_derivative(pm, dnames)
             with numpoly.global_options(**options):
-                args = [designate(numpoly, v) for v in case["vars"]]
+                args = [designate(numpoly, v, poly) for v in case["vars"]]
                 got, err = O.call_guard(numpoly.derivative, poly, *args)
             if err is not None:
                 O.report_exception(ctx, facts, err, case, what=f"derivative{tuple(dnames)}")
